@@ -105,7 +105,14 @@ def m_ver_ord(ex, args, callee):
     return ex.mk_enum('Ordering', 'Greater')
 
 
+def m_ver_new(ex, args, callee):
+    """Version::new(major, minor, patch): a release without build metadata"""
+    version_fields()
+    return Adt('Version', 0, {None: [Cell(dv(a)) for a in args[:3]] + [Cell(z3.RealVal(0)), Cell(z3.RealVal(0))]})
+
+
 MODELS = [
+    (r'^(semver::)?Version::new$', m_ver_new),
     (r'semver::Version as PartialOrd>::lt$', m_ver_cmp('lt')), (r'semver::Version as PartialOrd>::le$', m_ver_cmp('le')),
     (r'semver::Version as PartialOrd>::gt$', m_ver_cmp('gt')), (r'semver::Version as PartialOrd>::ge$', m_ver_cmp('ge')),
     (r'semver::Version as PartialEq>::eq$', m_ver_cmp('eq')), (r'semver::Version as PartialEq>::ne$', m_ver_cmp('ne')),
